@@ -16,7 +16,8 @@ import JanetModel.Lib.Format
 import JanetModel.Lib.StrC
 import JanetModel.Lib.BufC
 import JanetModel.Lib.ArrC
-import JanetModel.Lib.Boot
+import JanetModel.Lib.Boot2
+import JanetModel.Lib.BufPushC
 open Driver JanetModel.Lib
 
 inductive V where
@@ -183,6 +184,12 @@ def withMirror {α : Type} [BEq α] (m : R α) (spec : Option α) (args : List V
   match m with
   | .ub => .ok (.other "MIRROR-UB") args
   | _ => if m == R.ofOption spec then k else .ok (.other "MIRROR-MISMATCH") args
+
+/-- run the mirror of a variadic buffer push next to the reference: contents after the call and whether it raised -/
+def withPush (m : BufPush.Buf × R Unit) (okk : Bool) (b' : List Nat) (args : List V) (k : Out) : Out :=
+  match m.2 with
+  | .ub => .ok (.other "MIRROR-UB") args
+  | r => if BufPush.contents m.1 == b' && ((r == R.ok ()) == okk) then k else .ok (.other "MIRROR-MISMATCH") args
 
 def sliceFn (kind : String) (args : List V) : Out :=
   -- kind: which container is returned
@@ -396,7 +403,8 @@ def call (f : String) (args : List V) : Out :=
         | none => .err args)
      | some pa =>
        let (okk, b') := bufferPushSt b pa
-       if okk then .ok (.str 1 b') (setArg0 args (.str 1 b')) else .err (setArg0 args (.str 1 b')))
+       withPush (BufPush.push { data := b.toArray, count := b.length } pa) okk b' args
+       (if okk then .ok (.str 1 b') (setArg0 args (.str 1 b')) else .err (setArg0 args (.str 1 b'))))
   | "buffer/push-string", (.str 1 b) :: xs =>
     let good := xs.takeWhile (fun v => match v with | .str _ _ => true | .ref 0 => true | _ => false)
     (match pushArgs good 0 with
@@ -419,7 +427,8 @@ def call (f : String) (args : List V) : Out :=
           let (_, p) := bufferPushSt (b.take i.toNat) pa
           if good.length == xs.length then
             let b' := p ++ b.drop p.length
-            .ok (.str 1 b') (setArg0 args (.str 1 b'))
+            withPush (BufPush.pushAt { data := b.toArray, count := b.length } i pa) true b' args
+            (.ok (.str 1 b') (setArg0 args (.str 1 b')))
           else
             -- error part-way: the count stays where the partial push left it (not restored)
             .err (setArg0 args (.str 1 p))
@@ -499,14 +508,16 @@ def call (f : String) (args : List V) : Out :=
       | .seq _ l => ConcatArg.seq l
       | v => ConcatArg.item v)
     let r := arrayConcat a parts
-    .ok (.seq 1 r) (setArg0 args (.seq 1 r))
+    withMirror (ArrC.concat a parts) (some r) args (.ok (.seq 1 r) (setArg0 args (.seq 1 r)))
   | "array/join", (.seq 1 a) :: xs =>
     let good := xs.takeWhile (fun v => match v with | .ref 0 => true | .seq _ _ => true | _ => false)
     let parts := good.map (fun v => match v with | .ref 0 => ConcatArg.self | .seq _ l => ConcatArg.seq l | v => ConcatArg.item v)
     let r := arrayConcat a parts
     if good.length == xs.length then .ok (.seq 1 r) (setArg0 args (.seq 1 r)) else .err (setArg0 args (.seq 1 r))
   | "tuple/join", xs =>
-    (match xs.mapM indexedOf with | some ls => .ok (.seq 0 ls.flatten) args | none => .err args)
+    (match xs.mapM indexedOf with
+     | some ls => withMirror (ArrC.tupleJoin ls) (some ls.flatten) args (.ok (.seq 0 ls.flatten) args)
+     | none => .err args)
   | "array/fill", (.seq 1 a) :: rest =>
     if rest.length > 1 then .err args else
     let x := rest.getD 0 .nil
@@ -595,7 +606,10 @@ def call (f : String) (args : List V) : Out :=
     (match colls.mapM (fun v => match v with | .tbl _ l => some l | _ => none) with
      | some cs => .ok (.tbl 1 (merge cs)) args
      | none => .skip)
-  | "zipcoll", [.seq _ ks, .seq _ vs] => .ok (.tbl 1 (zipcoll ks vs)) args
+  | "zipcoll", [.seq _ ks, .seq _ vs] =>
+    (match Boot.zipcoll ks vs with
+     | .ok m => if (V.tbl 1 m) == (V.tbl 1 (zipcoll ks vs)) then .ok (.tbl 1 (zipcoll ks vs)) args else .ok (.other "MIRROR-MISMATCH") args
+     | _ => .ok (.other "MIRROR-UB") args)
   | "min", xs => (match ints xs with
       | some l => withMirror (Boot.extreme (fun a b => decide (a < b)) l) (some (extreme (· < ·) l)) args (.ok ((extreme (· < ·) l).elim V.nil V.int) args)
       | none => .skip)
@@ -612,8 +626,8 @@ def call (f : String) (args : List V) : Out :=
   | "product", [.seq _ xs] => (match ints xs with | some l => withMirror (Boot.product l) (some (productI l)) args (.ok (.int (productI l)) args) | none => .skip)
   | "reverse", [x] =>
     (match x with
-     | .seq _ l => .ok (.seq 1 l.reverse) args
-     | .str _ b => .ok (.str 1 b.reverse) args
+     | .seq _ l => withMirror (Boot.reverse l) (some l.reverse) args (.ok (.seq 1 l.reverse) args)
+     | .str _ b => withMirror (Boot.reverse b) (some b.reverse) args (.ok (.str 1 b.reverse) args)
      | _ => .skip)
   | "reverse!", [x] =>
     (match x with
